@@ -437,6 +437,10 @@ fn c11_deploy_interchain_token() {
             if supply > 0 { shim::n_calls() >= 1 && shim::call_is(0, &token, "mint", &(caller.clone(), supply)) } else { shim::n_calls() == 0 },
             "OBL C11.initial_supply_to_deployer: the initial supply, if any, is credited to the deployer — and nothing is minted otherwise"
         );
+        kani::cover!(supply > 0 && minter.is_some(), "COVER c11 deploy supply and minter");
+        kani::cover!(supply > 0 && minter.is_none(), "COVER c11 deploy supply only");
+        kani::cover!(supply <= 0 && minter.is_some(), "COVER c11 deploy minter only");
+        kani::cover!(supply <= 0 && minter.is_none(), "COVER c11 deploy neither");
         // --- the service must stay able to mint for inbound transfers
         let mut revoked = false;
         let mut i = 0;
@@ -464,10 +468,6 @@ fn c11_deploy_interchain_token() {
             shim::n_events() == 1 && shim::event_is(0, &(Symbol::new(&env, "interchain_token_deployed"), id, token.clone(), md.name.clone(), md.symbol.clone(), md.decimal, initial_minter.clone()), &Vec::<Val>::new(&env)),
             "OBL C11.local_deploy_event"
         );
-        kani::cover!(supply > 0 && minter.is_some(), "COVER c11 deploy supply and minter");
-        kani::cover!(supply > 0 && minter.is_none(), "COVER c11 deploy supply only");
-        kani::cover!(supply <= 0 && minter.is_some(), "COVER c11 deploy minter only");
-        kani::cover!(supply <= 0 && minter.is_none(), "COVER c11 deploy neither");
     }
 }
 
@@ -502,6 +502,67 @@ fn c11_register_canonical_token() {
             assert!(shim::no_effects(), "OBL C11.refused_register_no_effect");
             kani::cover!(true, "COVER c11 register err");
         }
+    }
+}
+
+// ---- registry invariant I-ITS (at one arbitrary witness id; proving it preserved for an arbitrary
+// witness proves it for all ids):  a registry entry is either a service-deployed token living at the
+// address derived from (service, id) — which is then occupied — or a canonical token registered
+// under the id derived from its own address.  It is what makes "re-deploying a taken id fails" true
+// although deploy_interchain_token never reads the registry: the deployment itself collides.
+fn derived_address(env: &Env, id: &BytesN<32>) -> Address {
+    env.deployer().with_address(me(env), *id).deployed_address()
+}
+fn iits(pre: bool, env: &Env, id: &BytesN<32>) -> bool {
+    let cfg: Option<TokenIdConfigValue> = if pre { pers().pre(&cfg_key(id)) } else { pers().post(&cfg_key(id)) };
+    match cfg {
+        None => true,
+        Some(c) => match c.token_manager_type {
+            TokenManagerType::NativeInterchainToken => c.token_address == derived_address(env, id) && shim::address_occupied(c.token_address.0),
+            TokenManagerType::LockUnlock => matches!(spec_canonical_salt(env, &c.token_address), Some(s) if spec_token_id(env, &s) == *id),
+        },
+    }
+}
+
+#[kani::proof]
+fn c11_deploy_needs_free_id() {
+    let env = Env::default();
+    let _h = shim::fresh_host();
+    let caller = Address::symbolic();
+    let salt: BytesN<32> = BytesN::symbolic();
+    let md = TokenMetadata { decimal: kani::any(), name: String::symbolic(), symbol: String::symbolic() };
+    let witness: BytesN<32> = BytesN::symbolic();
+    // requires: I-ITS at the id this call is about to use and at the witness
+    let id_new = spec_deploy_salt(&env, &caller, &salt).map(|s| spec_token_id(&env, &s));
+    if let Some(idn) = &id_new {
+        kani::assume(iits(true, &env, idn));
+    }
+    kani::assume(iits(true, &env, &witness));
+
+    // no initial supply / minter: those paths only add token calls (covered by c11_deploy_interchain_token)
+    let r = S::deploy_interchain_token(&env, caller.clone(), salt, md.clone(), 0, None);
+
+    if let Ok(id) = r {
+        assert!(Some(id) == id_new, "OBL C11.local_deploy_id_deterministic");
+        assert!(!pers().pre_has(&cfg_key(&id)), "OBL C11.local_deploy_needs_free_id: deploying under an id that is already registered (as a service-deployed or as a canonical token) fails");
+        assert!(iits(false, &env, &witness), "OBL C11.registry_invariant_preserved: every registry entry stays either a token at its derived, occupied address or a canonical token under its canonical id");
+        kani::cover!(witness == id, "COVER c11 free id witness is new id");
+        kani::cover!(witness != id, "COVER c11 free id other witness");
+    }
+}
+
+#[kani::proof]
+fn c11_register_preserves_registry_invariant() {
+    let env = Env::default();
+    let _h = shim::fresh_host();
+    let token = Address::symbolic();
+    let witness: BytesN<32> = BytesN::symbolic();
+    kani::assume(iits(true, &env, &witness));
+    let r = S::register_canonical_token(&env, token.clone());
+    if let Ok(id) = r {
+        assert!(iits(false, &env, &witness), "OBL C11.registry_invariant_preserved: every registry entry stays either a token at its derived, occupied address or a canonical token under its canonical id");
+        kani::cover!(witness == id, "COVER c11 register witness is new id");
+        kani::cover!(witness != id, "COVER c11 register other witness");
     }
 }
 
